@@ -221,17 +221,17 @@ Record built := mkB {
   b_inv : invocation          (* its body: return [await] _call(<invocation>) *)
 }.
 
-Fixpoint remove_args (b : fbuilder) (injected : list name) : res fbuilder :=
+Fixpoint remove_args (to_varkw : bool) (b : fbuilder) (injected : list name) : res fbuilder :=
   match injected with
   | [] => Ok b
   | n :: r =>
       match remove_arg b n with
-      | Ok b' => remove_args b' r
+      | Ok b' => remove_args to_varkw b' r
       | Raise e =>
           (* except MissingArgument: if inject_to_varkw and fb.varkw is not None: continue *)
-          match fb_varkw b with
-          | Some _ => remove_args b r
-          | None => Raise e
+          match to_varkw, fb_varkw b with
+          | true, Some _ => remove_args to_varkw b r
+          | _, _ => Raise e
           end
       end
   end.
@@ -246,9 +246,9 @@ Definition set_doc_dict (g : pyfunc) (doc : option nat) (d : pydict nat) : pyfun
   mkF (f_name g) doc (f_module g) (f_args g) (f_varargs g) (f_kwonly g) (f_varkw g)
       (f_defaults g) (f_kwdefaults g) (f_annotations g) (f_async g) (f_id g) d.
 
-(* keyword options of update_wrapper (inject_to_varkw is left at its default) *)
-Record options := mkOpt { o_update_dict : bool; o_hide_wrapped : bool }.
-Definition default_options : options := mkOpt true false.
+(* keyword options of update_wrapper *)
+Record options := mkOpt { o_update_dict : bool; o_hide_wrapped : bool; o_inject_to_varkw : bool }.
+Definition default_options : options := mkOpt true false true.
 
 (* the __dict__ of the result: what get_func left (the copy of func.__dict__ and
    __source__), minus a copied __signature__, then
@@ -263,7 +263,7 @@ Definition update_wrapper_opt (o : options) (gid : nat) (f : pyfunc) (injected :
   match from_func f with
   | Raise e => Raise e
   | Ok b0 =>
-      match remove_args b0 injected with
+      match remove_args (o_inject_to_varkw o) b0 injected with
       | Raise e => Raise e
       | Ok b1 =>
           match add_args b1 expected with
